@@ -188,6 +188,7 @@ func specStateOK(s BatchedPrivateTokenRequestState) bool {
 //@ ensures[C02] err == nil ==> int(l) == 32*len(s.tokenInputs)
 //@ ensures[C02] err == nil ==> len(tokenResponseEnc) >= k+int(l)+64
 //@ ensures[C02] err == nil ==> len(toks) == len(s.tokenInputs)
+//@ ensures[C02] err == nil ==> forall(0, len(toks), func(j int) bool { return tokens.SpecTokenInput(toks[j].TokenType, string(toks[j].Nonce), string(toks[j].Context), string(toks[j].KeyID)) == old(string(s.tokenInputs[j])) })
 //@ ensures err != nil ==> toks == nil
 //@ assigns none
 //@ alloc 16*len(tokenResponseEnc) + 256*len(s.tokenInputs) + 4096
@@ -195,6 +196,10 @@ func specStateOK(s BatchedPrivateTokenRequestState) bool {
 //@   invariant 0 <= i && i <= numElements && len(elements) == numElements && fresh(elements)
 //@   invariant elementLength == 32 && len(encodedElements) == 32*numElements
 //@   invariant forall(0, i, func(j int) bool { return elements[j] != nil })
+//@ loop 1 vars(i int, numElements int, toksv []tokens.Token, outputs [][]byte)
+//@   invariant 0 <= i && i <= numElements && numElements == len(s.tokenInputs) && len(toksv) == numElements && fresh(toksv) && len(outputs) == numElements
+//@   invariant forall(0, numElements, func(j int) bool { return string(s.tokenInputs[j]) == old(string(s.tokenInputs[j])) })
+//@   invariant forall(0, i, func(j int) bool { return tokens.SpecTokenInput(toksv[j].TokenType, string(toksv[j].Nonce), string(toksv[j].Context), string(toksv[j].KeyID)) == string(s.tokenInputs[j]) && fresh(toksv[j].Nonce) && fresh(toksv[j].Context) && fresh(toksv[j].KeyID) })
 //@ end
 
 // The batched client blinds one authenticator input per nonce under the issuer key it was given, and the
